@@ -94,6 +94,7 @@ class LazyFloor:
         return acc
 
 
+AMBIENT: list = []  # harness assumptions; used only to drop impossible -inf flags (simplify_x)
 FLOOR_RANGE = [None]  # optional (lo, hi) for unclipped floors, see LazyFloor.mat
 CELL_ATOMS: list = []  # atoms `x < k+1` created when a clipped floor is materialised
 SIDE: list = []  # side conditions (z3 Bool) that must follow from the harness assumptions
@@ -215,6 +216,19 @@ def mk_x(n, v):
     if n is True:
         return NINF
     return XR(n, v)
+
+
+def simplify_x(v):
+    """drop the -inf flag of an extended real when it is impossible under the ambient
+    (harness) assumptions; all obligations are proved under the same assumptions"""
+    if isinstance(v, XR) and AMBIENT:
+        s = z3.Solver()
+        s.set("timeout", 10000)
+        s.add(AMBIENT)
+        s.add(z(v.ninf))
+        if str(s.check()) == "unsat":
+            return v.val
+    return v
 
 
 def ite(c, a, b):
@@ -990,7 +1004,7 @@ def _reduce(name, f, init):
                 acc = vals[0]
                 for v in vals[1:]:
                     acc = f(acc, v)
-                out[idx] = force(acc)
+                out[idx] = simplify_x(force(acc))
         return (out, None)
 
     return r
